@@ -182,7 +182,11 @@ func forgeTraffic(env *Env, r *hx.Rng) (*Traffic, spectypes.OperatorID) {
 
 // ---------------------------------------------------------------- driver
 
-func parallelCases(run *hx.Run, nOps int, mk func(idx int, r *hx.Rng) caseOut) {
+func one(f func(idx int, r *hx.Rng) caseOut) func(idx int, r *hx.Rng) []caseOut {
+	return func(idx int, r *hx.Rng) []caseOut { return []caseOut{f(idx, r)} }
+}
+
+func parallelCases(run *hx.Run, nOps int, mk func(idx int, r *hx.Rng) []caseOut) {
 	workers := runtime.NumCPU()
 	if workers > 12 {
 		workers = 12
@@ -190,7 +194,7 @@ func parallelCases(run *hx.Run, nOps int, mk func(idx int, r *hx.Rng) caseOut) {
 	batch := workers * 4
 	idx := 0
 	for run.Evals < nOps {
-		outs := make([]caseOut, batch)
+		outs := make([][]caseOut, batch)
 		var wg sync.WaitGroup
 		sem := make(chan struct{}, workers)
 		for k := 0; k < batch; k++ {
@@ -204,8 +208,10 @@ func parallelCases(run *hx.Run, nOps int, mk func(idx int, r *hx.Rng) caseOut) {
 		}
 		wg.Wait()
 		idx += batch
-		for _, o := range outs {
-			absorb(run, o)
+		for _, os := range outs {
+			for _, o := range os {
+				absorb(run, o)
+			}
 		}
 	}
 }
@@ -269,7 +275,7 @@ func main() {
 		for _, t := range pool {
 			run.Tag("traffic/" + t.scenario)
 		}
-		parallelCases(run, run.N, func(idx int, r *hx.Rng) caseOut {
+		parallelCases(run, run.N, one(func(idx int, r *hx.Rng) caseOut {
 			var t *Traffic
 			var op spectypes.OperatorID
 			if r.Chance(35) {
@@ -282,14 +288,14 @@ func main() {
 				return runInstCase(t, op, r)
 			}
 			return runCtrlCase(t, op, r)
-		})
+		}))
 	case "c02":
 		c4, c7 := 16, 6
 		if run.Tier == "thorough" {
 			c4, c7 = 80, 30
 		}
 		pool := trafficPool(run.Seed, c4, c7)
-		parallelCases(run, run.N, func(idx int, r *hx.Rng) caseOut {
+		parallelCases(run, run.N, one(func(idx int, r *hx.Rng) caseOut {
 			var t *Traffic
 			var op spectypes.OperatorID
 			if r.Chance(25) {
@@ -299,7 +305,22 @@ func main() {
 				op = spectypes.OperatorID(1 + r.Intn(t.env.n))
 			}
 			return runC02Case(t, op, r)
-		})
+		}))
+	case "sim", "c07":
+		withCont := *mode == "c07"
+		var directed [][]caseOut
+		if withCont {
+			directed = append(directed, scenarioWedge())
+		} else {
+			directed = append(directed, scenarioCompactionEquivocation(4, true), scenarioCompactionEquivocation(4, false),
+				scenarioCompactionEquivocation(7, true), scenarioCompactionEquivocation(7, false))
+		}
+		for _, os := range directed {
+			for _, o := range os {
+				absorb(run, o)
+			}
+		}
+		parallelCases(run, run.N, func(idx int, r *hx.Rng) []caseOut { return runSim(r, withCont) })
 	default:
 		fmt.Fprintln(os.Stderr, "unknown mode", *mode)
 		os.Exit(2)
